@@ -1,0 +1,939 @@
+// Copyright 2024 The Wuffs Authors.
+//
+// Licensed under the Apache License, Version 2.0 <LICENSE-APACHE or
+// https://www.apache.org/licenses/LICENSE-2.0> or the MIT license
+// <LICENSE-MIT or https://opensource.org/licenses/MIT>, at your
+// option. This file may not be copied, modified, or distributed
+// except according to those terms.
+//
+// SPDX-License-Identifier: Apache-2.0 OR MIT
+
+//go:build verif
+
+package cgen
+
+// This file is only compiled under the "verif" build tag. It is used by
+// external verification harnesses to produce a "checked build" of the
+// generated C: when the WUFFS_VERIF_RANGE environment variable is "1", the
+// expressions whose range the bounds checker (lang/check) reasoned about are
+// wrapped in run-time assertions carrying the checker's own claims (the
+// MBounds of the expression node):
+//
+//   - "index":  a[i] asserts 0 <= i < length (array length or slice .len).
+//   - "slice":  a[i .. j] asserts 0 <= i <= j <= length. The same assertion
+//     is made when cgen decomposes a slice argument into a raw pointer and
+//     length ("slice-raw").
+//   - "arith":  the non-modular +, -, * and << (binary, associative and the
+//     op-assign forms) are computed in 128-bit arithmetic and asserted to lie
+//     within the node's MBounds (op-assign: within the destination's type).
+//   - "as":     the value before the conversion lies within the node's MBounds.
+//   - "divisor", "shift", "arg", "store", "ret", "value": any other numeric,
+//     non-constant expression node whose MBounds is narrower than its C type
+//     asserts its MBounds. The kind is its syntactic role.
+//
+// The bounds cached inside a while loop's condition were computed once, with
+// the facts that hold on loop entry, so they are not claims about later
+// iterations. Inside loop conditions only the assertions that are safety
+// properties in their own right are made (index, slice, and arithmetic or
+// conversion overflow with respect to the C type).
+//
+// An assertion failure does not abort: it calls wuffs_verif__range_hook (if
+// the embedding program set it) and increments wuffs_verif__range_violations.
+//
+// With the environment variable unset, the generated C is the normal C.
+
+import (
+	"fmt"
+	"math/big"
+	"os"
+	"strings"
+
+	a "github.com/google/wuffs/lang/ast"
+	t "github.com/google/wuffs/lang/token"
+)
+
+var verifRangeEnabled = os.Getenv("WUFFS_VERIF_RANGE") == "1"
+
+type verifSite struct {
+	file string
+	line uint32
+	fun  string
+	kind string
+	expr string
+	lo   string
+	hi   string
+}
+
+type verifSiteKey struct {
+	n    *a.Expr
+	kind string
+}
+
+type verifState struct {
+	// pass is the node that the next writeExpr call should write plainly.
+	pass *a.Expr
+	// stmts is the stack of statements being written.
+	stmts []*a.Node
+	// lvalues are the nodes written as the destination of an assignment.
+	lvalues map[*a.Expr]bool
+	// loopConds are the condition nodes of while loops.
+	loopConds map[*a.Expr]bool
+	// inLoopCond is non-zero while writing (part of) a while condition.
+	inLoopCond int
+	// roles is the syntactic role of a node, for the site table.
+	roles map[*a.Expr]string
+	// rawSlices maps the container (the x in x[i .. j]) of a slice expression
+	// that cgen may decompose into a raw pointer and length, bypassing the
+	// slice node itself, to that slice expression.
+	rawSlices map[*a.Expr]*a.Expr
+
+	sites    []verifSite
+	siteKeys map[verifSiteKey]int
+}
+
+var verifNop = func() {}
+
+func (g *gen) verifStatement(n *a.Node) func() {
+	if !verifRangeEnabled {
+		return verifNop
+	}
+	v := &g.verif
+	if v.lvalues == nil {
+		v.lvalues = map[*a.Expr]bool{}
+		v.loopConds = map[*a.Expr]bool{}
+		v.roles = map[*a.Expr]string{}
+		v.rawSlices = map[*a.Expr]*a.Expr{}
+		v.siteKeys = map[verifSiteKey]int{}
+	}
+	v.stmts = append(v.stmts, n)
+	switch n.Kind() {
+	case a.KAssign:
+		n := n.AsAssign()
+		if lhs := n.LHS(); lhs != nil {
+			v.lvalues[lhs] = true
+		}
+		if rhs := n.RHS(); rhs != nil {
+			v.roles[rhs] = "store"
+		}
+	case a.KRet:
+		if x := n.AsRet().Value(); x != nil {
+			v.roles[x] = "ret"
+		}
+	case a.KWhile:
+		if c := n.AsWhile().Condition(); c != nil {
+			v.loopConds[c] = true
+		}
+	case a.KIOManip:
+		n := n.AsIOManip()
+		if x := n.Arg1(); x != nil {
+			v.roles[x] = "arg"
+		}
+		if x := n.HistoryPosition(); x != nil {
+			v.roles[x] = "arg"
+		}
+	}
+	return func() { v.stmts = v.stmts[:len(v.stmts)-1] }
+}
+
+var (
+	verifTwo64      = big.NewInt(0).Lsh(big.NewInt(1), 64)
+	verifMinusTwo63 = big.NewInt(0).Neg(big.NewInt(0).Lsh(big.NewInt(1), 63))
+)
+
+type verifCType struct {
+	name   string
+	lo, hi *big.Int
+}
+
+func verifIntRange(signed bool, bits uint) (lo *big.Int, hi *big.Int) {
+	if signed {
+		hi = big.NewInt(0).Lsh(big.NewInt(1), bits-1)
+		lo = big.NewInt(0).Neg(hi)
+		hi.Sub(hi, big.NewInt(1))
+		return lo, hi
+	}
+	hi = big.NewInt(0).Lsh(big.NewInt(1), bits)
+	hi.Sub(hi, big.NewInt(1))
+	return big.NewInt(0), hi
+}
+
+// verifNumCType returns the C type that cgen uses for a (possibly refined)
+// numeric Wuffs type.
+func verifNumCType(typ *a.TypeExpr) (verifCType, bool) {
+	if (typ == nil) || (typ.Decorator() != 0) || (typ.QID()[0] != t.IDBase) {
+		return verifCType{}, false
+	}
+	signed, bits := false, uint(0)
+	switch typ.QID()[1] {
+	case t.IDI8:
+		signed, bits = true, 8
+	case t.IDI16:
+		signed, bits = true, 16
+	case t.IDI32:
+		signed, bits = true, 32
+	case t.IDI64:
+		signed, bits = true, 64
+	case t.IDU8:
+		bits = 8
+	case t.IDU16:
+		bits = 16
+	case t.IDU32:
+		bits = 32
+	case t.IDU64:
+		bits = 64
+	default:
+		return verifCType{}, false
+	}
+	lo, hi := verifIntRange(signed, bits)
+	return verifCType{cTypeNames[typ.QID()[1]], lo, hi}, true
+}
+
+// verifTypeBounds returns the range of a (possibly refined) numeric type.
+func verifTypeBounds(typ *a.TypeExpr, ct verifCType) (lo *big.Int, hi *big.Int) {
+	lo, hi = ct.lo, ct.hi
+	if typ.IsRefined() {
+		if x := typ.Min(); (x != nil) && (x.ConstValue() != nil) && (x.ConstValue().Cmp(lo) > 0) {
+			lo = x.ConstValue()
+		}
+		if x := typ.Max(); (x != nil) && (x.ConstValue() != nil) && (x.ConstValue().Cmp(hi) < 0) {
+			hi = x.ConstValue()
+		}
+	}
+	return lo, hi
+}
+
+// verifWideLiteral returns a C expression, of type wuffs_verif__wide, for x.
+// It returns false if x does not fit in [-(1<<63), (1<<64)).
+func verifWideLiteral(x *big.Int) (string, bool) {
+	if (x.Cmp(verifMinusTwo63) < 0) || (x.Cmp(verifTwo64) >= 0) {
+		return "", false
+	}
+	if x.Sign() >= 0 {
+		return "((wuffs_verif__wide)" + x.String() + "u)", true
+	}
+	// "-9223372036854775808" is not a valid C literal.
+	y := big.NewInt(0).Add(x, big.NewInt(1))
+	y.Neg(y)
+	return "(-((wuffs_verif__wide)" + y.String() + ") - 1)", true
+}
+
+func verifCString(s string) string {
+	w := strings.Builder{}
+	w.WriteByte('"')
+	for i := 0; i < len(s); i++ {
+		switch c := s[i]; {
+		case (c == '"') || (c == '\\'):
+			w.WriteByte('\\')
+			w.WriteByte(c)
+		case c == '?':
+			// Avoid trigraphs.
+			w.WriteString("\\?")
+		case (c < 0x20) || (c >= 0x7F):
+			fmt.Fprintf(&w, "\\%03o", c)
+		default:
+			w.WriteByte(c)
+		}
+	}
+	w.WriteByte('"')
+	return w.String()
+}
+
+// verifSite registers (or finds) the assertion site for (n, kind) and returns
+// the C expression for a pointer to its table entry.
+func (g *gen) verifSite(n *a.Expr, kind string, expr string, lo string, hi string) string {
+	v := &g.verif
+	key := verifSiteKey{n, kind}
+	i, ok := v.siteKeys[key]
+	if !ok {
+		s := verifSite{kind: kind, expr: expr, lo: lo, hi: hi}
+		if len(v.stmts) > 0 {
+			s.file, s.line = v.stmts[len(v.stmts)-1].AsRaw().FilenameLine()
+			s.file = strings.Replace(s.file, "\\", "/", -1)
+			if j := strings.LastIndex(s.file, "/std/"); j >= 0 {
+				s.file = s.file[j+1:]
+			}
+		}
+		if f := g.currFunk.astFunc; f != nil {
+			s.fun = f.QQID().Str(g.tm)
+		}
+		i = len(v.sites)
+		v.sites = append(v.sites, s)
+		if n != nil {
+			v.siteKeys[key] = i
+		}
+	}
+	return fmt.Sprintf("&wuffs_verif__sites__%s[%d]", g.pkgName, i)
+}
+
+// verifPlain writes n as if there was no hook (but n's children are hooked).
+func (g *gen) verifPlain(n *a.Expr, sideEffectsOnly bool, depth uint32) (string, error) {
+	buf := buffer(nil)
+	g.verif.pass = n
+	err := g.writeExpr(&buf, n, sideEffectsOnly, depth)
+	g.verif.pass = nil
+	return string(buf), err
+}
+
+// verifChild writes a child expression (hooked).
+func (g *gen) verifChild(n *a.Expr, depth uint32) (string, error) {
+	buf := buffer(nil)
+	err := g.writeExpr(&buf, n, false, depth)
+	return string(buf), err
+}
+
+func (g *gen) verifWriteExpr(b *buffer, n *a.Expr, sideEffectsOnly bool, depth uint32) (bool, error) {
+	if !verifRangeEnabled {
+		return false, nil
+	}
+	v := &g.verif
+	if v.pass == n {
+		v.pass = nil
+		return false, nil
+	}
+	if (len(v.stmts) == 0) || (depth > a.MaxExprDepth) {
+		return false, nil
+	}
+	if v.loopConds[n] {
+		// Write the whole condition here, so that its sub-expressions are
+		// written (by recursive writeExpr calls) while inLoopCond is set.
+		delete(v.loopConds, n)
+		v.inLoopCond++
+		s, err := g.verifChild(n, depth)
+		v.inLoopCond--
+		v.loopConds[n] = true
+		b.writes(s)
+		return true, err
+	}
+
+	// A slice's container, when cgen decomposes the slice into a raw pointer
+	// and length instead of writing the slice expression itself.
+	if slice := v.rawSlices[n]; slice != nil {
+		delete(v.rawSlices, n)
+		s, err := g.verifRawSlice(n, slice, depth)
+		if err != nil {
+			return true, err
+		}
+		b.writes(s)
+		return true, nil
+	}
+
+	if n.ConstValue() != nil {
+		return false, nil
+	}
+
+	// Note the roles of n's children, before they are written.
+	switch op := n.Operator(); op {
+	case t.IDXBinarySlash, t.IDXBinaryPercent:
+		v.roles[n.RHS().AsExpr()] = "divisor"
+	case t.IDXBinaryShiftL, t.IDXBinaryShiftR, t.IDXBinaryTildeModShiftL:
+		v.roles[n.RHS().AsExpr()] = "shift"
+	case a.ExprOperatorCall:
+		for _, o := range n.Args() {
+			x := o.AsArg().Value()
+			v.roles[x] = "arg"
+			g.verifNoteRawSlice(x)
+		}
+		if recv, _, _, ok := n.IsMethodCall(); ok {
+			g.verifNoteRawSlice(recv)
+		}
+	}
+
+	inner, selfChecked, err := "", false, error(nil)
+	switch n.Operator() {
+	case a.ExprOperatorIndex:
+		inner, err = g.verifIndex(n, depth)
+	case a.ExprOperatorSlice:
+		inner, err = g.verifSlice(n, depth)
+	case t.IDXBinaryPlus, t.IDXBinaryMinus, t.IDXBinaryStar, t.IDXBinaryShiftL,
+		t.IDXAssociativePlus, t.IDXAssociativeStar:
+		inner, selfChecked, err = g.verifArith(n, depth)
+	case t.IDXBinaryAs:
+		inner, selfChecked, err = g.verifAs(n, depth)
+	}
+	if err != nil {
+		return true, err
+	}
+	if selfChecked {
+		b.writes(inner)
+		return true, nil
+	}
+
+	wrapped, err := g.verifValue(n, inner, sideEffectsOnly, depth)
+	if err != nil {
+		return true, err
+	}
+	if wrapped != "" {
+		b.writes(wrapped)
+		return true, nil
+	}
+	if inner != "" {
+		b.writes(inner)
+		return true, nil
+	}
+	return false, nil
+}
+
+// verifValue wraps n (whose C form is inner, if non-empty) in an assertion of
+// its MBounds, if that is a claim worth asserting. It returns "" if not.
+func (g *gen) verifValue(n *a.Expr, inner string, sideEffectsOnly bool, depth uint32) (string, error) {
+	v := &g.verif
+	if sideEffectsOnly || v.lvalues[n] || (v.inLoopCond > 0) {
+		return "", nil
+	}
+	ct, ok := verifNumCType(n.MType())
+	if !ok {
+		return "", nil
+	}
+	mb := n.MBounds()
+	if (mb[0] == nil) || (mb[1] == nil) {
+		return "", nil
+	}
+	if (mb[0].Cmp(ct.lo) <= 0) && (mb[1].Cmp(ct.hi) >= 0) {
+		// Every value of the C type satisfies the claim.
+		return "", nil
+	}
+	if n.Operator() == t.IDXBinaryAs {
+		if lct, ok := verifNumCType(n.LHS().AsExpr().MType()); ok && (mb[0].Cmp(lct.lo) <= 0) && (mb[1].Cmp(lct.hi) >= 0) {
+			// Every value of the operand's C type satisfies the claim.
+			return "", nil
+		}
+	}
+	if (n.Operator() == a.ExprOperatorCall) && !n.Effect().Pure() && n.Effect().Coroutine() {
+		// The C form of a coroutine call is a status, not the value.
+		return "", nil
+	}
+	lo, ok0 := verifWideLiteral(mb[0])
+	hi, ok1 := verifWideLiteral(mb[1])
+	if !ok0 || !ok1 {
+		return "", nil
+	}
+	if inner == "" {
+		s, err := g.verifPlain(n, false, depth)
+		if err != nil {
+			return "", err
+		}
+		inner = s
+	}
+	kind := v.roles[n]
+	if kind == "" {
+		kind = "value"
+	}
+	site := g.verifSite(n, kind, n.Str(g.tm), mb[0].String(), mb[1].String())
+	return fmt.Sprintf("((%s)wuffs_verif__w((wuffs_verif__wide)(%s), %s, %s, %s))",
+		ct.name, inner, lo, hi, site), nil
+}
+
+// verifClaim returns the bounds to assert for the arithmetic or conversion
+// node n: its MBounds or, inside a loop condition, its C type's range.
+func (g *gen) verifClaim(n *a.Expr, ct verifCType) (lo *big.Int, hi *big.Int, ok bool) {
+	if g.verif.inLoopCond > 0 {
+		return ct.lo, ct.hi, true
+	}
+	mb := n.MBounds()
+	if (mb[0] == nil) || (mb[1] == nil) {
+		return nil, nil, false
+	}
+	lo, hi = mb[0], mb[1]
+	// The checker also proved that the value fits the type.
+	if lo.Cmp(ct.lo) < 0 {
+		lo = ct.lo
+	}
+	if hi.Cmp(ct.hi) > 0 {
+		hi = ct.hi
+	}
+	return lo, hi, true
+}
+
+func verifWideOp(op t.ID, x string, y string) string {
+	switch op {
+	case t.IDXBinaryPlus, t.IDXAssociativePlus, t.IDPlusEq:
+		return "(" + x + " + " + y + ")"
+	case t.IDXBinaryMinus, t.IDMinusEq:
+		return "(" + x + " - " + y + ")"
+	case t.IDXBinaryStar, t.IDXAssociativeStar, t.IDStarEq:
+		return "wuffs_verif__mul(" + x + ", " + y + ")"
+	case t.IDXBinaryShiftL, t.IDShiftLEq:
+		return "wuffs_verif__shl(" + x + ", " + y + ")"
+	}
+	return ""
+}
+
+// verifArith writes a non-modular arithmetic node, computed in wide
+// arithmetic and asserted to lie within its claimed range.
+func (g *gen) verifArith(n *a.Expr, depth uint32) (string, bool, error) {
+	v := &g.verif
+	ct, ok := verifNumCType(n.MType())
+	if !ok || v.lvalues[n] {
+		return "", false, nil
+	}
+	lo, hi, ok := g.verifClaim(n, ct)
+	if !ok {
+		return "", false, nil
+	}
+	los, ok0 := verifWideLiteral(lo)
+	his, ok1 := verifWideLiteral(hi)
+	if !ok0 || !ok1 {
+		return "", false, nil
+	}
+
+	operands := []*a.Expr(nil)
+	if n.Operator().IsXAssociativeOp() {
+		for _, o := range n.Args() {
+			operands = append(operands, o.AsExpr())
+		}
+	} else {
+		operands = append(operands, n.LHS().AsExpr(), n.RHS().AsExpr())
+	}
+	if len(operands) < 2 {
+		return "", false, nil
+	}
+	wide := ""
+	for i, o := range operands {
+		if _, ok := verifNumCType(o.MType()); !ok && !o.MType().IsIdeal() {
+			return "", false, nil
+		}
+		s, err := g.verifChild(o, depth)
+		if err != nil {
+			return "", false, err
+		}
+		s = "(wuffs_verif__wide)(" + s + ")"
+		if i == 0 {
+			wide = s
+		} else {
+			wide = verifWideOp(n.Operator(), wide, s)
+		}
+	}
+
+	site := g.verifSite(n, "arith", n.Str(g.tm), lo.String(), hi.String())
+	return fmt.Sprintf("((%s)wuffs_verif__w(%s, %s, %s, %s))", ct.name, wide, los, his, site), true, nil
+}
+
+// verifAs writes a numeric conversion, asserting that the value before the
+// conversion lies within the node's claimed range.
+func (g *gen) verifAs(n *a.Expr, depth uint32) (string, bool, error) {
+	lhs, rhs := n.LHS().AsExpr(), n.RHS().AsTypeExpr()
+	ct, ok := verifNumCType(rhs)
+	if !ok {
+		return "", false, nil
+	}
+	if _, ok := verifNumCType(lhs.MType()); !ok {
+		return "", false, nil
+	}
+	if lhs.Operator() == t.IDXBinaryAmp {
+		// writeExprAs may drop a redundant mask: the C operand is then not the
+		// Wuffs operand. The converted value's range is still asserted.
+		return "", false, nil
+	}
+	lo, hi, ok := g.verifClaim(n, ct)
+	if !ok {
+		return "", false, nil
+	}
+	if lct, _ := verifNumCType(lhs.MType()); (lo.Cmp(lct.lo) <= 0) && (hi.Cmp(lct.hi) >= 0) {
+		// Every value of the operand's C type satisfies the claim.
+		return "", false, nil
+	}
+	los, ok0 := verifWideLiteral(lo)
+	his, ok1 := verifWideLiteral(hi)
+	if !ok0 || !ok1 {
+		return "", false, nil
+	}
+	s, err := g.verifChild(lhs, depth)
+	if err != nil {
+		return "", false, err
+	}
+	site := g.verifSite(n, "as", n.Str(g.tm), lo.String(), hi.String())
+	return fmt.Sprintf("((%s)wuffs_verif__w((wuffs_verif__wide)(%s), %s, %s, %s))", ct.name, s, los, his, site), true, nil
+}
+
+// verifLength returns the C expression (of an unsigned integer type) for the
+// length of the array or slice typed x, whose C form is xs.
+func verifLength(x *a.Expr, xs string) (string, bool) {
+	typ := x.MType()
+	if typ.IsPointerType() && typ.Inner().IsEitherArrayType() {
+		typ = typ.Inner()
+	}
+	if typ.IsEitherArrayType() {
+		if cv := typ.ArrayLength().ConstValue(); cv != nil {
+			return cv.String() + "u", true
+		}
+		return "", false
+	}
+	if typ.IsEitherSliceType() {
+		return "((uint64_t)(" + xs + ".len))", true
+	}
+	return "", false
+}
+
+// verifIndex writes "lhs[rhs]" with the index asserted to be in bounds.
+func (g *gen) verifIndex(n *a.Expr, depth uint32) (string, error) {
+	lhs, rhs := n.LHS().AsExpr(), n.RHS().AsExpr()
+	ls, err := g.verifChild(lhs, depth)
+	if err != nil {
+		return "", err
+	}
+	rs, err := g.verifChild(rhs, depth)
+	if err != nil {
+		return "", err
+	}
+	isSlice := lhs.MType().IsEitherSliceType()
+	if length, ok := verifLength(lhs, ls); ok && (isSlice || (rhs.ConstValue() == nil)) {
+		site := g.verifSite(n, "index", n.Str(g.tm), "0", "length - 1")
+		rs = fmt.Sprintf("wuffs_verif__index((wuffs_verif__wide)(%s), (wuffs_verif__wide)(%s), %s)", rs, length, site)
+	}
+	if isSlice {
+		ls += ".ptr"
+	}
+	return ls + "[" + rs + "]", nil
+}
+
+// verifSlice writes "lhs[mhs .. rhs]" with the bounds asserted.
+func (g *gen) verifSlice(n *a.Expr, depth uint32) (string, error) {
+	v := &g.verif
+	lhs, mhs, rhs := n.LHS().AsExpr(), n.MHS().AsExpr(), n.RHS().AsExpr()
+	// This slice expression is written as such: it is not decomposed.
+	delete(v.rawSlices, lhs)
+
+	s, err := g.verifPlain(n, false, depth)
+	if err != nil {
+		return "", err
+	}
+	if (mhs == nil) && (rhs == nil) {
+		return s, nil
+	}
+	const (
+		pArray   = "wuffs_base__make_slice_u8"
+		pArrayIJ = "wuffs_base__make_slice_u8_ij("
+		pSlice   = "wuffs_base__slice_u8__subslice_"
+	)
+	if !strings.HasSuffix(s, ")") {
+		return s, nil
+	}
+	body := s[:len(s)-1]
+	site := g.verifSite(n, "slice", n.Str(g.tm), "0", "length")
+	if lhs.MType().IsEitherArrayType() {
+		if ((mhs == nil) || (mhs.ConstValue() != nil)) && ((rhs == nil) || (rhs.ConstValue() != nil)) {
+			// Constant bounds of an array were checked at compile time.
+			return s, nil
+		}
+		length, ok := verifLength(lhs, "")
+		if !ok {
+			return s, nil
+		}
+		if strings.HasPrefix(body, pArrayIJ) {
+			return "wuffs_verif__make_slice_u8_ij(" + body[len(pArrayIJ):] + ", " + length + ", " + site + ")", nil
+		} else if strings.HasPrefix(body, pArray+"(") {
+			return "wuffs_verif__make_slice_u8(" + body[len(pArray)+1:] + ", " + length + ", " + site + ")", nil
+		}
+		return s, nil
+	}
+	if strings.HasPrefix(body, pSlice) {
+		return "wuffs_verif__slice_u8__subslice_" + body[len(pSlice):] + ", " + site + ")", nil
+	}
+	return s, nil
+}
+
+// verifNoteRawSlice notes that x, an argument or receiver of a call, is a
+// slice expression that cgen may decompose into a raw pointer and length.
+func (g *gen) verifNoteRawSlice(x *a.Expr) {
+	if x == nil {
+		return
+	}
+	c, lo, hi, ok := x.IsSlice()
+	if !ok || ((lo == nil) && (hi == nil)) {
+		return
+	}
+	if c.MType().IsEitherArrayType() &&
+		((lo == nil) || (lo.ConstValue() != nil)) && ((hi == nil) || (hi.ConstValue() != nil)) {
+		// Constant bounds of an array were checked at compile time.
+		return
+	}
+	if _, ok := verifLength(c, ""); !ok {
+		return
+	}
+	g.verif.rawSlices[c] = x
+}
+
+// verifRawSlice writes n, the container of the decomposed slice expression,
+// asserting 0 <= lower <= upper <= length on the way.
+func (g *gen) verifRawSlice(n *a.Expr, slice *a.Expr, depth uint32) (string, error) {
+	ns, err := g.verifChild(n, depth)
+	if err != nil {
+		return "", err
+	}
+	_, lo, hi, _ := slice.IsSlice()
+	los, his := "(wuffs_verif__wide)(0u)", ""
+	if lo != nil {
+		s, err := g.verifChild(lo, depth)
+		if err != nil {
+			return "", err
+		}
+		los = "(wuffs_verif__wide)(" + s + ")"
+	}
+	if hi != nil {
+		s, err := g.verifChild(hi, depth)
+		if err != nil {
+			return "", err
+		}
+		his = "(wuffs_verif__wide)(" + s + ")"
+	}
+	site := g.verifSite(slice, "slice-raw", slice.Str(g.tm), "0", "length")
+	if n.MType().IsEitherSliceType() {
+		if his == "" {
+			return fmt.Sprintf("wuffs_verif__raw_slice_i(%s, %s, %s)", ns, los, site), nil
+		}
+		return fmt.Sprintf("wuffs_verif__raw_slice_ij(%s, %s, %s, %s)", ns, los, his, site), nil
+	}
+	length, ok := verifLength(n, ns)
+	if !ok {
+		return ns, nil
+	}
+	if his == "" {
+		his = "(wuffs_verif__wide)(" + length + ")"
+	}
+	// The comma operator: the array itself is the value.
+	return fmt.Sprintf("(wuffs_verif__slice_bounds(%s, %s, (wuffs_verif__wide)(%s), %s), %s)", los, his, length, site, ns), nil
+}
+
+// verifWriteAssignOp writes "lhs op= rhs" for the non-modular +=, -=, *= and
+// <<=, computed in wide arithmetic and asserted to fit lhs' type.
+func (g *gen) verifWriteAssignOp(b *buffer, op t.ID, lhs *a.Expr, rhs *a.Expr, skipRHS bool) (bool, error) {
+	if !verifRangeEnabled || (lhs == nil) || skipRHS || (len(g.verif.stmts) == 0) {
+		return false, nil
+	}
+	switch op {
+	case t.IDPlusEq, t.IDMinusEq, t.IDStarEq, t.IDShiftLEq:
+	default:
+		return false, nil
+	}
+	if (g.currFunk.tempR != g.currFunk.tempW) || !rhs.Effect().Pure() {
+		return false, nil
+	}
+	ct, ok := verifNumCType(lhs.MType())
+	if !ok {
+		return false, nil
+	}
+	if _, ok := verifNumCType(rhs.MType()); !ok && !rhs.MType().IsIdeal() {
+		return false, nil
+	}
+	lo, hi := verifTypeBounds(lhs.MType(), ct)
+	los, ok0 := verifWideLiteral(lo)
+	his, ok1 := verifWideLiteral(hi)
+	if !ok0 || !ok1 {
+		return false, nil
+	}
+	g.verif.lvalues[lhs] = true
+	ls, err := g.verifChild(lhs, 0)
+	if err != nil {
+		return true, err
+	}
+	if op == t.IDShiftLEq {
+		g.verif.roles[rhs] = "shift"
+	} else {
+		g.verif.roles[rhs] = "operand"
+	}
+	rs, err := g.verifChild(rhs, 0)
+	if err != nil {
+		return true, err
+	}
+	wide := verifWideOp(op, "(wuffs_verif__wide)("+ls+")", "(wuffs_verif__wide)("+rs+")")
+	site := g.verifSite(lhs, "arith", lhs.Str(g.tm)+" "+op.Str(g.tm)+" "+rhs.Str(g.tm), lo.String(), hi.String())
+	b.printf("%s = ((%s)wuffs_verif__w(%s, %s, %s, %s));\n", ls, ct.name, wide, los, his, site)
+	return true, nil
+}
+
+const verifPreamble = `#if !defined(WUFFS_VERIF__RANGE_PREAMBLE)
+#define WUFFS_VERIF__RANGE_PREAMBLE
+
+// ---------------- Range Assertions (a checked build, for verification)
+
+// This C code was generated by a cgen built with the "verif" Go build tag and
+// run with WUFFS_VERIF_RANGE=1. The ranges that the Wuffs bounds checker
+// derived at compile time are asserted at run time. See
+// internal/cgen/range_verif.go
+
+typedef __int128 wuffs_verif__wide;
+
+typedef struct wuffs_verif__site__struct {
+const char* file;
+uint32_t line;
+const char* func;
+const char* kind;
+const char* expr;
+const char* lo;
+const char* hi;
+} wuffs_verif__site;
+
+typedef void (*wuffs_verif__range_hook_func)(const wuffs_verif__site* site,
+wuffs_verif__wide value,
+wuffs_verif__wide lo,
+wuffs_verif__wide hi);
+
+static wuffs_verif__range_hook_func wuffs_verif__range_hook = NULL;
+static volatile uint64_t wuffs_verif__range_violations = 0;
+#if defined(WUFFS_VERIF_RANGE_COUNT)
+static uint64_t wuffs_verif__range_evaluations = 0;
+#define WUFFS_VERIF__COUNT wuffs_verif__range_evaluations++
+#else
+#define WUFFS_VERIF__COUNT ((void)0)
+#endif
+
+#if defined(__GNUC__)
+__attribute__((noinline, cold))
+#endif
+static void  //
+wuffs_verif__fail(const wuffs_verif__site* site,
+wuffs_verif__wide value,
+wuffs_verif__wide lo,
+wuffs_verif__wide hi) {
+wuffs_verif__range_violations++;
+if (wuffs_verif__range_hook) {
+(*wuffs_verif__range_hook)(site, value, lo, hi);
+}
+}
+
+static inline wuffs_verif__wide  //
+wuffs_verif__w(wuffs_verif__wide value,
+wuffs_verif__wide lo,
+wuffs_verif__wide hi,
+const wuffs_verif__site* site) {
+WUFFS_VERIF__COUNT;
+if (WUFFS_BASE__UNLIKELY((value < lo) || (value > hi))) {
+wuffs_verif__fail(site, value, lo, hi);
+}
+return value;
+}
+
+#define WUFFS_VERIF__WIDE_MAX ((wuffs_verif__wide)((((unsigned __int128)1) << 127) - 1))
+#define WUFFS_VERIF__WIDE_MIN (-WUFFS_VERIF__WIDE_MAX - 1)
+
+// wuffs_verif__mul returns (x * y), saturating.
+static inline wuffs_verif__wide  //
+wuffs_verif__mul(wuffs_verif__wide x, wuffs_verif__wide y) {
+wuffs_verif__wide z;
+if (__builtin_mul_overflow(x, y, &z)) {
+return ((x < 0) != (y < 0)) ? WUFFS_VERIF__WIDE_MIN : WUFFS_VERIF__WIDE_MAX;
+}
+return z;
+}
+
+// wuffs_verif__shl returns (x << y), saturating.
+static inline wuffs_verif__wide  //
+wuffs_verif__shl(wuffs_verif__wide x, wuffs_verif__wide y) {
+if ((y < 0) || (y > 64)) {
+return (x == 0) ? 0 : ((x < 0) ? WUFFS_VERIF__WIDE_MIN : WUFFS_VERIF__WIDE_MAX);
+}
+return wuffs_verif__mul(x, ((wuffs_verif__wide)1) << y);
+}
+
+static inline size_t  //
+wuffs_verif__index(wuffs_verif__wide i,
+wuffs_verif__wide length,
+const wuffs_verif__site* site) {
+WUFFS_VERIF__COUNT;
+if (WUFFS_BASE__UNLIKELY((i < 0) || (i >= length))) {
+wuffs_verif__fail(site, i, 0, length - 1);
+}
+return (size_t)i;
+}
+
+static inline void  //
+wuffs_verif__slice_bounds(wuffs_verif__wide i,
+wuffs_verif__wide j,
+wuffs_verif__wide length,
+const wuffs_verif__site* site) {
+WUFFS_VERIF__COUNT;
+if (WUFFS_BASE__UNLIKELY((j < 0) || (j > length))) {
+wuffs_verif__fail(site, j, 0, length);
+} else if (WUFFS_BASE__UNLIKELY((i < 0) || (i > j))) {
+wuffs_verif__fail(site, i, 0, j);
+}
+}
+
+static inline wuffs_base__slice_u8  //
+wuffs_verif__raw_slice_i(wuffs_base__slice_u8 s,
+wuffs_verif__wide i,
+const wuffs_verif__site* site) {
+wuffs_verif__slice_bounds(i, (wuffs_verif__wide)(s.len), (wuffs_verif__wide)(s.len), site);
+return s;
+}
+
+static inline wuffs_base__slice_u8  //
+wuffs_verif__raw_slice_ij(wuffs_base__slice_u8 s,
+wuffs_verif__wide i,
+wuffs_verif__wide j,
+const wuffs_verif__site* site) {
+wuffs_verif__slice_bounds(i, j, (wuffs_verif__wide)(s.len), site);
+return s;
+}
+
+static inline wuffs_base__slice_u8  //
+wuffs_verif__make_slice_u8(uint8_t* ptr,
+size_t j,
+size_t length,
+const wuffs_verif__site* site) {
+wuffs_verif__slice_bounds(0, j, length, site);
+return wuffs_base__make_slice_u8(ptr, j);
+}
+
+static inline wuffs_base__slice_u8  //
+wuffs_verif__make_slice_u8_ij(uint8_t* ptr,
+size_t i,
+size_t j,
+size_t length,
+const wuffs_verif__site* site) {
+wuffs_verif__slice_bounds(i, j, length, site);
+return wuffs_base__make_slice_u8_ij(ptr, i, j);
+}
+
+static inline wuffs_base__slice_u8  //
+wuffs_verif__slice_u8__subslice_i(wuffs_base__slice_u8 s,
+uint64_t i,
+const wuffs_verif__site* site) {
+wuffs_verif__slice_bounds(i, s.len, s.len, site);
+return wuffs_base__slice_u8__subslice_i(s, i);
+}
+
+static inline wuffs_base__slice_u8  //
+wuffs_verif__slice_u8__subslice_j(wuffs_base__slice_u8 s,
+uint64_t j,
+const wuffs_verif__site* site) {
+wuffs_verif__slice_bounds(0, j, s.len, site);
+return wuffs_base__slice_u8__subslice_j(s, j);
+}
+
+static inline wuffs_base__slice_u8  //
+wuffs_verif__slice_u8__subslice_ij(wuffs_base__slice_u8 s,
+uint64_t i,
+uint64_t j,
+const wuffs_verif__site* site) {
+wuffs_verif__slice_bounds(i, j, s.len, site);
+return wuffs_base__slice_u8__subslice_ij(s, i, j);
+}
+
+#endif  // !defined(WUFFS_VERIF__RANGE_PREAMBLE)
+
+`
+
+// verifWritePreamble writes the assertion helpers (once per C translation
+// unit) and this package's table of assertion sites. The function bodies (and
+// hence the sites) were already generated, by gatherFuncImpl.
+func (g *gen) verifWritePreamble(b *buffer) {
+	if !verifRangeEnabled {
+		return
+	}
+	b.writes(verifPreamble)
+	b.writes("// ---------------- Range Assertion Sites\n\n")
+	n := len(g.verif.sites)
+	if n == 0 {
+		n = 1
+	}
+	b.printf("static const wuffs_verif__site wuffs_verif__sites__%s[%d] = {\n", g.pkgName, n)
+	for _, s := range g.verif.sites {
+		b.printf("{%s, %d, %s, %s, %s, %s, %s},\n", verifCString(s.file), s.line, verifCString(s.fun),
+			verifCString(s.kind), verifCString(s.expr), verifCString(s.lo), verifCString(s.hi))
+	}
+	if len(g.verif.sites) == 0 {
+		b.writes("{\"\", 0, \"\", \"\", \"\", \"\", \"\"},\n")
+	}
+	b.writes("};\n\n")
+}
